@@ -106,6 +106,16 @@ pub struct SCell {
     pub name: String,
     pub layout: Option<SLayout>,
     pub abs: Option<SAbs>,
+    /// names of the layout and of the abstract view where they differ from the cell's name
+    pub view_names: Option<(String, String)>,
+}
+impl SCell {
+    pub fn layout_name(&self) -> String {
+        self.view_names.as_ref().map(|v| v.0.clone()).unwrap_or_else(|| self.name.clone())
+    }
+    pub fn abs_name(&self) -> String {
+        self.view_names.as_ref().map(|v| v.1.clone()).unwrap_or_else(|| self.name.clone())
+    }
 }
 #[derive(Clone, Debug, PartialEq)]
 pub struct Spec {
@@ -142,7 +152,7 @@ pub fn build_raw(spec: &Spec) -> Library {
     for (sc, ptr) in spec.cells.iter().zip(ptrs.iter()) {
         let mut cell = ptr.write().expect("MACHINERY: fresh cell lock");
         if let Some(l) = &sc.layout {
-            let mut lay = Layout { name: sc.name.clone(), ..Default::default() };
+            let mut lay = Layout { name: sc.layout_name(), ..Default::default() };
             for s in &l.shapes {
                 let purpose = tech()[s.layer].purposes[s.purpose].1.clone();
                 lay.elems.push(Element { net: s.net.clone(), layer: keys[s.layer], purpose, inner: s.geom.to_raw() });
@@ -157,7 +167,7 @@ pub fn build_raw(spec: &Spec) -> Library {
             cell.layout = Some(lay);
         }
         if let Some(a) = &sc.abs {
-            let mut abs = Abstract::new(sc.name.clone(), Polygon { points: a.outline.iter().map(|p| rp(*p)).collect() });
+            let mut abs = Abstract::new(sc.abs_name(), Polygon { points: a.outline.iter().map(|p| rp(*p)).collect() });
             for p in &a.ports {
                 let mut port = AbstractPort::new(p.net.clone());
                 port.shapes = by_layer(&p.shapes);
@@ -190,7 +200,7 @@ pub fn expected_view(spec: &Spec, lower_nets: bool) -> VLib {
     for c in &spec.cells {
         let mut vc = VCell { name: c.name.clone(), ..Default::default() };
         if let Some(l) = &c.layout {
-            let mut vl = VLayout { name: c.name.clone(), ..Default::default() };
+            let mut vl = VLayout { name: c.layout_name(), ..Default::default() };
             for s in &l.shapes {
                 let net = s.net.as_ref().map(|n| if lower_nets { n.to_lowercase() } else { n.clone() });
                 vl.shapes.push(VShape { layer: layer_num(s.layer), purpose: purpose_num(s.layer, s.purpose), shape: s.geom.canon(), net });
@@ -202,7 +212,7 @@ pub fn expected_view(spec: &Spec, lower_nets: bool) -> VLib {
             vc.layout = Some(vl);
         }
         if let Some(a) = &c.abs {
-            let mut va = VAbs { name: c.name.clone(), outline: a.outline.clone(), ..Default::default() };
+            let mut va = VAbs { name: c.abs_name(), outline: a.outline.clone(), ..Default::default() };
             for p in &a.ports {
                 va.ports.push(VPort { net: p.net.clone(), shapes: by_layer_view(&p.shapes) });
             }
@@ -231,6 +241,8 @@ pub struct CmpMode {
     pub inst_list_with_names: bool,
     pub annotations: bool,
     pub abstracts: bool,
+    /// the layout view's own name (GDSII cannot carry it)
+    pub layout_name: bool,
 }
 
 fn inst_key(i: &VInst, with_name: bool) -> String {
@@ -270,6 +282,9 @@ pub fn compare_views(exp: &VLib, got: &VLib, mode: CmpMode) -> Vec<(&'static str
             (Some(_), None) => out.push(("layout-view-lost", format!("cell {name}: layout view lost"))),
             (None, Some(_)) => out.push(("layout-view-invented", format!("cell {name}: layout view appeared"))),
             (Some(el), Some(gl)) => {
+                if mode.layout_name && el.name != gl.name {
+                    out.push(("layout-name", format!("cell {name}: layout view name {:?} became {:?}", el.name, gl.name)));
+                }
                 if mode.inst_list_with_names {
                     let e: Vec<String> = el.insts.iter().map(|i| inst_key(i, true)).collect();
                     let g: Vec<String> = gl.insts.iter().map(|i| inst_key(i, true)).collect();
